@@ -117,7 +117,7 @@ structure Block where
 
 /-- type tokens of `handlebars_helper!` (regenerated accessor table decides their meaning) -/
 inductive TyTok where
-  | tObject | tArray | tStr | tI64 | tU64 | tF64 | tBool | tNull | tJson | tSerdeString | tSerdeVecU64
+  | tObject | tArray | tStr | tI64 | tU64 | tF64 | tBool | tNull | tJson | tSerdeString | tSerdeVecU64 | tSerdeU32 | tSerdeI32
 deriving DecidableEq, Repr
 
 structure MacroSig where
@@ -132,7 +132,7 @@ inductive HelperKind where
   | ifH (positive : Bool) | each | withH | lookup | raw | log
   | eq | ne | gt | gte | lt | lte | andH | orH | notH | len
   -- defined by the harness, mirrored here
-  | mark (tag : Str) | probe | evalp | rcstate | vret | counter | wr
+  | mark (tag : Str) | probe | evalp | rcstate | vret | counter | wr | incl
   | macroH (sig : MacroSig)
 
 inductive DecoKind where
@@ -560,16 +560,20 @@ def applyAccessor (acc : String) (x : Json) : Option Json :=
 def TyTok.token : TyTok → String
   | .tObject => "object" | .tArray => "array" | .tStr => "str" | .tI64 => "i64"
   | .tU64 => "u64" | .tF64 => "f64" | .tBool => "bool" | .tNull => "null"
-  | .tJson => "Json" | .tSerdeString => "String" | .tSerdeVecU64 => "Vec"
+  | .tJson => "Json" | .tSerdeString => "String" | .tSerdeVecU64 => "Vec" | .tSerdeU32 => "u32" | .tSerdeI32 => "i32"
 
 def lookupAccessor (tbl : List (String × String)) (tok : String) : Option String :=
   match tbl with
   | [] => none
   | (k, v) :: t => if k == tok then some v else lookupAccessor t tok
 
-/-- `serde_json::from_value::<T>(x.clone()).ok()` for the two serde types the harness family uses -/
+/-- `serde_json::from_value::<T>(x.clone()).ok()` for the serde types the harness family uses: String, Vec<u64> and the
+    narrower integers u32 / i32 (an integer outside the type's range is no value of the type; a float never is) -/
 def fromValue (t : TyTok) (x : Json) : Option Json :=
   match t, x with
+  | .tSerdeU32, .num (.pos k) => if k < 2 ^ 32 then some (.num (.pos k)) else none
+  | .tSerdeI32, .num (.pos k) => if k < 2 ^ 31 then some (.num (.pos k)) else none
+  | .tSerdeI32, .num (.neg k) => if k ≤ 2 ^ 31 then some (.num (.neg k)) else none
   | .tSerdeString, .str s => some (.str s)
   | .tSerdeVecU64, .arr a =>
     if a.toList.all (fun v => match v with | .num (.pos _) => true | _ => false) then some (.arr a) else none
@@ -587,7 +591,7 @@ def asJsonValue (t : TyTok) (x : Json) : Option Json := asJsonValueWith Generate
 def TyTok.text : TyTok → Str
   | .tObject => str "object" | .tArray => str "array" | .tStr => str "str" | .tI64 => str "i64"
   | .tU64 => str "u64" | .tF64 => str "f64" | .tBool => str "bool" | .tNull => str "null"
-  | .tJson => str "Json" | .tSerdeString => str "String" | .tSerdeVecU64 => str "Vec< u64 >"
+  | .tJson => str "Json" | .tSerdeString => str "String" | .tSerdeVecU64 => str "Vec< u64 >" | .tSerdeU32 => str "u32" | .tSerdeI32 => str "i32"
 
 /-- positional parameters of the expansion, in order -/
 def macroParams (strict : Bool) (sig : MacroSig) (h : HelperI) :
@@ -994,6 +998,14 @@ mutual
         let rc ← get
         write (rcStateLine rc)
       | .wr => write (((h.params[0]?).map (·.json.render)).getD [])
+      | .incl =>
+        -- a user helper that renders a REGISTERED template through the same render context (`t.render(r, ctx, rc, out)`)
+        match (h.params[0]?).bind (·.json.asStr?) with
+        | some n =>
+          match assocGet reg.templates n with
+          | some t => renderTemplate reg root fuel t
+          | none => pure ()
+        | none => pure ()
       | .counter => do
         let rc ← get
         modifyAux (fun rc => { rc with counter := rc.counter + 1 })
